@@ -169,7 +169,15 @@ new_iterator!(
             .unwrap()
             .parent
             .and_then(|parent_id| arena.get(parent_id))
-            .and_then(|parent| parent.first_child);
+            .and_then(|parent| parent.first_child)
+            .or_else(|| {
+                // A top-level node has no parent to ask: walk to the front.
+                let mut first = node;
+                while let Some(previous) = arena[first].previous_sibling {
+                    first = previous;
+                }
+                Some(first)
+            });
 
         DoubleEndedIter::new(arena, node, first)
     },
@@ -186,7 +194,15 @@ new_iterator!(
             .unwrap()
             .parent
             .and_then(|parent_id| arena.get(parent_id))
-            .and_then(|parent| parent.last_child);
+            .and_then(|parent| parent.last_child)
+            .or_else(|| {
+                // A top-level node has no parent to ask: walk to the back.
+                let mut last = node;
+                while let Some(next) = arena[last].next_sibling {
+                    last = next;
+                }
+                Some(last)
+            });
 
         DoubleEndedIter::new(arena, node, last)
     },
